@@ -92,6 +92,13 @@ func genWellFormedGW(t *rapid.T) wfCase {
 			add("broker-publish", gwgen.MQ(gwgen.BPublish(topic, byte(rapid.IntRange(0, 2).Draw(t, "qos")), 100+mid, genPayload(t), rapid.Bool().Draw(t, "retain"), rapid.Bool().Draw(t, "dup"))))
 		case "bigpub":
 			topic := rapid.SampledFrom([]string{"ab", "p/one", "t/a", "new/big"}).Draw(t, "topic")
+			if rapid.IntRange(0, 2).Draw(t, "long_name") == 0 {
+				// a topic name which is legal in MQTT (up to 65535 octets) but does not fit a REGISTER
+				n := rapid.SampledFrom([]int{8180, 8185, 8186, 8187, 8200, 65000, 65535}).Draw(t, "namelen")
+				topic = "long/" + strings.Repeat("n", n-5)
+				add("broker-publish-long-name", gwgen.MQ(gwgen.BPublish(topic, byte(rapid.IntRange(0, 2).Draw(t, "qos")), 100+mid, []byte("x"), false, false)))
+				continue
+			}
 			add("broker-publish-big", gwgen.MQ(gwgen.BPublish(topic, byte(rapid.IntRange(0, 2).Draw(t, "qos")), 100+mid, genBigPayload(t), false, false)))
 		case "cpub":
 			add("puback", gwgen.SN(gwgen.Publish(snref.TITShort, snref.ShortID("ab"), byte(rapid.IntRange(0, 2).Draw(t, "qos")), mid, []byte("x"))))
@@ -130,7 +137,7 @@ func genWellFormedGW(t *rapid.T) wfCase {
 func TestC23GW(t *testing.T) {
 	vf.Check(t, vf.Prop[wfCase]{
 		ID: "C23", Name: "gateway-datagrams-wellformed", Bubble: true,
-		Rule: "session histories biased to rarely taken send paths: zero keep-alive CONNECT, unknown AUTH method, will prompting, refused and failed connects, REGACK/SUBACK incl. exhaustion of a scaled-down ID space, broker publishes on every topic form and QoS with payloads 0..70000 octets (crossing 8192 and the uint16 wrap at 65531), retransmissions, sleep / wake-up flush / CONNECT while awake, shutdown DISCONNECT. Non-trivial = a history that sends at least one datagram from a path other than the plain connect/publish/subscribe happy path; distinct by script.",
+		Rule: "session histories biased to rarely taken send paths: zero keep-alive CONNECT, unknown AUTH method, will prompting, refused and failed connects, REGACK/SUBACK incl. exhaustion of a scaled-down ID space, broker publishes on every topic form and QoS with payloads 0..70000 octets (crossing 8192 and the uint16 wrap at 65531) and with topic names of 8180..65535 octets (a REGISTER for them would not fit), retransmissions, sleep / wake-up flush / CONNECT while awake, shutdown DISCONNECT. Non-trivial = a history that sends at least one datagram from a path other than the plain connect/publish/subscribe happy path; distinct by script.",
 		Assumptions: []string{"well-formed = decodes with the reference decoder, its type is one a gateway sends (spec 5.4), its length field equals its size and the one-octet form is used iff size <= 255, size <= 8192 (MaxPacketLen)"},
 		Gen:         genWellFormedGW,
 		Run: func(c wfCase) (r vf.Result) {
